@@ -377,6 +377,61 @@ func c09Cap(id string) {
 	emit("C09 cap id=%s res=%s", id, strings.Join(res, ","))
 }
 
+// c09Busy: a host already serving the maximum number of state exchanges (peers that opened one and then
+// stalled) is asked to join by one more node: whatever the host does, the outcome must be mutual - either
+// both list each other and Join reports success, or Join fails and neither changed.
+func c09Busy(r *rng, id string) {
+	rcv, err := newCnode(ccfg{name: "R", tcpTimeout: 5 * time.Second})
+	if err != nil {
+		return
+	}
+	defer rcv.m.Shutdown()
+	snd, err := newCnode(ccfg{name: "S", tcpTimeout: 5 * time.Second})
+	if err != nil {
+		return
+	}
+	defer snd.m.Shutdown()
+	limit := int(ml.VerifConsts()["maxPushPullRequests"])
+	stalled := limit - r.intn(3) // at the limit, one below, two below
+	var ends []net.Conn
+	for i := 0; i < stalled; i++ {
+		a, b := net.Pipe()
+		ends = append(ends, a)
+		go ml.VerifHandleConn(rcv.m, b)
+		go a.Write([]byte{6}) // pushPullMsg, then silence
+	}
+	for i := 0; i < 2000 && int(ml.VerifPushPullReq(rcv.m)) < stalled; i++ {
+		time.Sleep(time.Millisecond)
+	}
+	inflight := int(ml.VerifPushPullReq(rcv.m))
+	a, b := net.Pipe()
+	snd.tr.dial = func(addr string) (net.Conn, error) { return a, nil }
+	done := make(chan struct{})
+	go func() { ml.VerifHandleConn(rcv.m, b); close(done) }()
+	_, jerr := snd.m.Join([]string{"R/10.0.0.1:7946"})
+	select {
+	case <-done:
+	case <-time.After(8 * time.Second):
+	}
+	snd.tr.dial = nil
+	lists := func(m *ml.Memberlist, name string) int {
+		for _, n := range m.Members() {
+			if n.Name == name {
+				return 1
+			}
+		}
+		return 0
+	}
+	res := "ok"
+	if jerr != nil {
+		res = "err"
+	}
+	emit("C09 busy id=%s limit=%d inflight=%d join=%s hostlists=%d joinerlists=%d", id, limit, inflight, res, lists(rcv.m, "S"), lists(snd.m, "R"))
+	for _, e := range ends {
+		e.Close()
+	}
+}
+
 func TestC09(t *testing.T) {
 	n := envInt("VERIF_N", 3000)
 	if thorough() {
@@ -389,4 +444,5 @@ func TestC09(t *testing.T) {
 	forCases(1, 95, "p", func(i int, r *rng, id string) { c09Cap(id) })
 	forCases(n/10, 96, "f", func(i int, r *rng, id string) { c09Ppf(r, id) })
 	forCases(n/10, 97, "n", func(i int, r *rng, id string) { rrsLeg("C09", r, id) })
+	forCases(3, 98, "b", func(i int, r *rng, id string) { c09Busy(r, id) })
 }
